@@ -104,6 +104,13 @@ def steady_state_transport_solver(
 
     nlvls = len(levels)
 
+    # levels may be requested in any order; the sweeps below fill the output
+    # slots in ascending order, so solve for the sorted levels and restore the
+    # requested order afterwards
+    out_levels = np.asarray(levels)
+    order = np.argsort(out_levels, kind="stable")
+    levels = out_levels[order]
+
     # halo to deal with periodicity of FFT
     if halo is None:
         halo = max(xmx, ymx)
@@ -198,7 +205,7 @@ def steady_state_transport_solver(
 
         tfftp[0, msk] = tfftq0[msk] * Kzinv / eigval
         tfftp[:, 0, 0] = p000 - tfftq0[0, 0] * Kzinv * h
-        tfftq[:, msk] = tfftq0[msk] * np.exp(-eigval * h)
+        tfftq[:, msk] = tfftq0[msk] * np.exp(-eigval * h[:, np.newaxis])
         tfftp[:, msk] = tfftq[:, msk] * Kzinv / eigval
 
     else:
@@ -249,6 +256,12 @@ def steady_state_transport_solver(
 
         if nz - 1 in levels:
             tfftp[lvl, 0, 0] = tfftp00
+
+    # restore the requested order of the output levels
+    unsort = np.argsort(order, kind="stable")
+    tfftp = tfftp[unsort]
+    tfftq = tfftq[unsort]
+    levels = out_levels
 
     # shift green function in Fourier space to measurement point
     if footprint:
